@@ -80,6 +80,38 @@ fn replay_one(r: &Value, prop: &str, rep: &mut Report) {
                 rep.violation("C13", "allocation above the allowance", r.clone());
             }
         }
+        "valve-layout" | "valve-trace" | "valve-behaviour" => {
+            // the recorded script against valve::query with the case's engine (diagnosis: prints every socket event)
+            let script: transport::ScriptJ = serde_json::from_value(r["script"].clone()).unwrap();
+            let engine_j = if r["case"]["engine"].is_object() { r["case"]["engine"].clone() } else { r["engine"].clone() };
+            let engine = valve::engine_of(&engine_j);
+            let cfg = &r["cfg"];
+            let g = gamedig::protocols::valve::GatheringSettings {
+                players: valve::toggle(cfg["gp"].as_str().unwrap_or("Enforce")),
+                rules: valve::toggle(cfg["gr"].as_str().unwrap_or("Enforce")),
+                check_app_id: cfg["check"].as_bool().unwrap_or(false),
+            };
+            let retries = cfg["r"].as_u64().unwrap_or(0) as usize;
+            let rec = transport::run_call(&script, transport::DEFAULT_MAX_OPS, move || {
+                gamedig::protocols::valve::query(&valve::addr(27015), engine, Some(g), valve::timeouts(retries))
+            });
+            for e in &rec.events {
+                let j = transport::event_json(e).to_string();
+                eprintln!("{}", &j[.. j.len().min(160)]);
+            }
+            eprintln!("outcome: {}", rec.outcome.to_json().to_string().chars().take(300).collect::<String>());
+            rep.evaluations += 1;
+        }
+        "exchange-trace" => {
+            let script: transport::ScriptJ = serde_json::from_value(r["script"].clone()).unwrap();
+            let rec = proto::call(r["proto"].as_str().unwrap(), &script, 27015, r["r"].as_u64().unwrap_or(0) as usize, None);
+            for e in &rec.events {
+                let j = transport::event_json(e).to_string();
+                eprintln!("{}", &j[.. j.len().min(160)]);
+            }
+            eprintln!("outcome: {}", rec.outcome.to_json().to_string().chars().take(300).collect::<String>());
+            rep.evaluations += 1;
+        }
         "buffer-transition" => c17::replay_buffer(&[r["case"].clone()], rep),
         "varint-case" => c17::replay_varint(&[r["case"].clone()], rep),
         k => {
@@ -353,7 +385,7 @@ fn run(cmd: &str, args: &[String], seed: u64, rep: &mut Report) {
                 templates: template::Templates::load(arg(&args, "--templates").unwrap()),
             };
             let mut trace = Vec::new();
-            exchange::trace_random(&ctx, seed, arg_u64(&args, "--runs", 2000) as usize, &mut trace, &mut rep);
+            exchange::trace_random(&ctx, seed, arg_u64(&args, "--runs", 2000) as usize, arg(&args, "--dump-run").map(|x| x.parse().unwrap()), &mut trace, &mut rep);
             rep.extra.insert("events".into(), json!(trace.len()));
             write_ndjson(arg(&args, "--out-trace").unwrap(), &trace);
         }
@@ -364,7 +396,7 @@ fn run(cmd: &str, args: &[String], seed: u64, rep: &mut Report) {
                 drift: drift_ids(),
             };
             let mut trace = Vec::new();
-            valve::trace_random(&ctx, seed, arg_u64(&args, "--runs", 2000) as usize, &mut trace, &mut rep);
+            valve::trace_random(&ctx, seed, arg_u64(&args, "--runs", 2000) as usize, arg(&args, "--dump-run").map(|x| x.parse().unwrap()), &mut trace, &mut rep);
             rep.extra.insert("events".into(), json!(trace.len()));
             write_ndjson(arg(&args, "--out-trace").unwrap(), &trace);
         }
